@@ -47,6 +47,20 @@ func lemmaRoundTripOnKilled(m *OnKilled) (out *OnKilled, werr, rerr error, pos, 
 	return out, werr, rerr, r.Pos(), len(data)
 }
 
+// the "Error" wire message (*Error: code and description; the wrapped cause is documented as not serialised)
+//@ func lemmaRoundTripError
+//@   requires m != nil && len(m.msg) <= 4294967295
+//@   ensures werr == nil && rerr == nil && pos == n && out.code == m.code && out.msg == m.msg
+func lemmaRoundTripError(m *Error) (out *Error, werr, rerr error, pos, n int) {
+	w := messages.NewWriter()
+	werr = errorWriter(m, w, nil)
+	data := w.Bytes()
+	r := messages.NewReader(data)
+	out = &Error{}
+	rerr = errorReader(out, r, nil)
+	return out, werr, rerr, r.Pos(), len(data)
+}
+
 // supervision decisions (C08): the predicates the core switches on, and what they mean
 //@ pure dRestart(d SupervisionDecision) bool = d == SupervisionDecisionRestart || d == SupervisionDecisionGracefulRestart
 //@ pure dStop(d SupervisionDecision) bool = d == SupervisionDecisionStop || d == SupervisionDecisionGracefulStop
